@@ -77,10 +77,14 @@ CLAIMED["C10"] = dict(
    text="(PARTIAL: the solver-decidable fragments) (a) j_from_ode: the real kernel on a symbolic simulation matrix (2-4 rows, 1-3 state dims, 1-2 control dims, every use_state_dims; reals) equals the documented time-weighted sum of squared states and gamma-weighted squared controls divided by T, writes every destination cell exactly once and stays in range; (b) IEEE lemma in z3 QF_FP: (v*v)*(w*gamma) is not NaN and >= 0 for the magnitudes the kernel admits; (d) the real run_ode with scipy's RK45/DenseOutput, controller and equations replaced by nondeterministic stubs: it returns within 5 cycles, and the result is either the failure row or `steps` rows with the start state first, strictly increasing linspace times up to the limit, every entry in (-1e10,1e10) and every control entry = controller(state, time). Stub-level counterexamples are replayed on a battery of concrete systems through the real RK45.",
    note="Outside (the bulk of the property's numerical content): termination/accuracy of scipy's RK45, NaN/inf values, agreement with analytic solutions (one concrete case), diff_from_ode numerics. Assumes RK45 never reports 'failed' while the state function saw only in-range values (with it run_ode would ENLARGE max_time to nextafter(inf); could not be reproduced with a concrete system - recorded in DESIGN.md as an observation).",
    design="4/C10")
+CLAIMED["C11"] = dict(
+   text="(modulo stubs) One operation of the real FigureOfMerit/FigureOfMeritLE code (evaluate, initialize, set_raw, set_model, get_differentials) is run from an ARBITRARY object state satisfying a stated invariant (equations real/model; collect <=> real equations and model mode supported; both data collections of equal length; arbitrary garbage in the internal results array) with run_ode/j_from_ode/diff_from_ode as uninterpreted functions of (training case, equations, x): evaluate returns exactly mean (or exp(mean(log(J+1)))-1) of the per-case values or 1e200 at the first case outside [0,1e100], a value in [0,1e100] u {1e200}; the invariant is re-established; recorded data is unchanged in model mode and grows by exactly the number of completed cases otherwise; every mutator has its documented effect. Histories of any length follow by induction. Symbolic findings are replayed as operation sequences on the real objects against fresh objects.",
+   note="Outside: history dependence below the Python level, the real run_ode (C10), SurrogateOptimizer.solve as a whole, NaN. Trusted: z3; the private-field layout is read from the working tree's constructor.",
+   design="4/C11")
 NA = {
  "C12": "quantifies over complete optimisation runs (moptipy Execution/Process, RNG streams, log files, budgets): no bounded symbolic encoding within reach; its solver-decidable ingredients are claimed under C01, C02, C04-C06, C19",
 }
-NOT_BUILT = "harness not built yet in this round (solver-based check planned in DESIGN.md section 4)"
+NOT_BUILT = "not claimed"
 def main():
     props = [json.loads(l)["id"] for l in open(os.path.join(ROOT, "properties.jsonl"))]
     checks = []
